@@ -297,9 +297,10 @@ def package_helpers(parsed: List[Tuple[str, ast.Module]], ambiguous: Set[str]):
 
 class Inliner:
     def __init__(self, tree: ast.Module, module: str, ambiguous: Optional[Set[str]] = None, pkg_funcs=None, pkg_meths=None, is_package: bool = False,
-                 pkg_bindings: Optional[Dict[str, Dict[str, Tuple[str, ...]]]] = None):
+                 pkg_bindings: Optional[Dict[str, Dict[str, Tuple[str, ...]]]] = None, self_ambiguous: Optional[Set[str]] = None):
         self.tree = tree
         self.module = module
+        self_amb = ambiguous if self_ambiguous is None else self_ambiguous
         self.counter = 0
         ref = reference_functions()
         self.helpers: Dict[str, Tuple[ast.FunctionDef, List[ast.stmt]]] = {}
@@ -338,7 +339,7 @@ class Inliner:
         for c in classes:
             for st in c.body:
                 if isinstance(st, ast.FunctionDef) and f"{module}:{c.name}.{st.name}" not in ref and defined.get(st.name) == 1 and not st.name.startswith("__") \
-                        and st.name not in (ambiguous or set()):
+                        and st.name not in (self_amb or set()):
                     b = _inlinable(st, method=True)
                     if b is not None:
                         self.methods[(c.name, st.name)] = (st, b)
@@ -346,7 +347,7 @@ class Inliner:
         self.unique_methods: Dict[str, Tuple[ast.FunctionDef, List[ast.stmt]]] = {}
         ref_names = {r.split(".")[-1] for r in ref if "." in r.split(":")[-1]}
         for (cname_, mname), (fn_, b_) in self.methods.items():
-            if not fn_.decorator_list and mname not in ref_names and not any(hasattr(t_, mname) for t_ in (dict, list, str, bytes, set, tuple, int, float, object, bytearray)):
+            if not fn_.decorator_list and mname not in ref_names and mname not in (ambiguous or set()) and not any(hasattr(t_, mname) for t_ in (dict, list, str, bytes, set, tuple, int, float, object, bytearray)):
                 self.unique_methods[mname] = (fn_, b_)
         if pkg_meths:
             for mname, (mod_, fn_, b_) in pkg_meths.items():
@@ -798,9 +799,13 @@ def _replace_node(st: ast.stmt, fld: str, old: ast.AST, new: ast.AST) -> None:
     setattr(st, fld, R().visit(getattr(st, fld)))
 
 
-def inline_new_helpers(tree: ast.Module, module: str, ambiguous: Optional[Set[str]] = None, pkg_funcs=None, pkg_meths=None,
-                       is_package: bool = False, keep: Optional[Set[str]] = None, pkg_bindings=None) -> Tuple[ast.Module, List[str]]:
-    inl = Inliner(tree, module, ambiguous, pkg_funcs, pkg_meths, is_package, pkg_bindings)
+def inline_new_helpers(tree: ast.Module, module: str, ambiguous: Optional[Set[str]] = None, pkg_funcs=None, pkg_meths=None, *_a, **_k):
+    return _inline_new_helpers(tree, module, ambiguous, pkg_funcs, pkg_meths, *_a, **_k)
+
+
+def _inline_new_helpers(tree: ast.Module, module: str, ambiguous: Optional[Set[str]] = None, pkg_funcs=None, pkg_meths=None,
+                       is_package: bool = False, keep: Optional[Set[str]] = None, pkg_bindings=None, self_ambiguous: Optional[Set[str]] = None) -> Tuple[ast.Module, List[str]]:
+    inl = Inliner(tree, module, ambiguous, pkg_funcs, pkg_meths, is_package, pkg_bindings, self_ambiguous)
     inl.keep = set(keep or ())
     t = inl.run()
     return t, sorted(set(inl.inlined)) + ["-" + n for n in inl.removed]
